@@ -24,6 +24,9 @@ impl<const BITS: usize, const LIMBS: usize> Encodable for Uint<BITS, LIMBS> {
 /// See <https://eth.wiki/en/fundamentals/rlp>
 impl<const BITS: usize, const LIMBS: usize> Decodable for Uint<BITS, LIMBS> {
     fn decode(s: &Rlp) -> Result<Self, DecoderError> {
+        if !s.is_data() {
+            return Err(DecoderError::RlpExpectedToBeData);
+        }
         Self::try_from_be_slice(s.data()?).ok_or(DecoderError::Custom(
             "RLP integer value too large for Uint.",
         ))
